@@ -2,7 +2,9 @@ from betterproto import casing
 
 
 def pythonize_class_name(name: str) -> str:
-    return casing.pascal_case(name)
+    # PascalCase drops every symbol: what remains may be empty, start with a digit
+    # (`_1x`) or be a keyword (`none` -> `None`); keep it a usable identifier.
+    return casing.sanitize_name(casing.pascal_case(name))
 
 
 def pythonize_field_name(name: str) -> str:
